@@ -3,14 +3,17 @@ use fbh::gal::*;
 use fbh::prng::Rng;
 use fbh::report::{guarded, Report};
 use fbh::Ctx;
-use duke::tree::class::{ArrClassName, ClassName, ObjClassName, ObjClassNameSlice};
+use duke::tree::class::{ArrClassName, ArrClassNameSlice, ClassName, ClassNameSlice, ObjClassName, ObjClassNameSlice};
 use duke::tree::descriptor::{ArrayType, ParsedFieldDescriptor, ParsedMethodDescriptor, ParsedReturnDescriptor, ReturnDescriptorSlice, Type};
-use duke::tree::field::{FieldDescriptorSlice, FieldName};
-use duke::tree::method::code::LocalVariableName;
-use duke::tree::method::{MethodDescriptorSlice, MethodName, ParameterName};
-use java_string::JavaStr;
+use duke::tree::field::{FieldDescriptorSlice, FieldName, FieldNameSlice};
+use duke::tree::method::code::{LocalVariableName, LocalVariableNameSlice};
+use duke::tree::method::{MethodDescriptorSlice, MethodName, MethodNameSlice, ParameterName, ParameterNameSlice};
+use java_string::{JavaStr, JavaString};
 
 pub const ALPHABET: &str = "BILV[();/.a$<>";
+/// second sweep: characters of 2, 3 and 4 UTF-8 bytes, three kinds of white space (space, TAB, EM SPACE), and what gives
+/// names, descriptors and inner-class names their structure
+pub const ALPHABET2: &str = "\u{fc}\u{65e5}\u{10400} \t\u{2003}$/L;[I";
 
 // ---------- Gallina printers for the tree types ----------
 fn g_aty(a: &ArrayType) -> String {
@@ -53,6 +56,21 @@ pub fn impl_name(kind: usize, s: &JavaStr) -> Result<bool, String> {
 		0 => ClassName::is_valid(s), 1 => ArrClassName::is_valid(s), 2 => ObjClassName::is_valid(s),
 		3 => FieldName::is_valid(s), 4 => MethodName::is_valid(s), 5 => ParameterName::is_valid(s),
 		_ => LocalVariableName::is_valid(s),
+	})
+}
+/// the three TryFrom impls make_string_str_like! generates (&Slice from &JavaStr, Owned from JavaString, Owned from &JavaStr):
+/// for each, whether it succeeded and whether the value carries the input unchanged
+fn impl_try_from(kind: usize, s: &JavaStr) -> Result<[(bool, bool); 3], String> {
+	macro_rules! three { ($owned:ty, $slice:ty) => { {
+		let a = <&$slice>::try_from(s).map(|x| x.as_inner() == s);
+		let b = <$owned>::try_from(s.to_owned()).map(|x| x.as_inner() == s);
+		let c = <$owned as TryFrom<&JavaStr>>::try_from(s).map(|x| x.as_inner() == s);
+		[(a.is_ok(), a.unwrap_or(true)), (b.is_ok(), b.unwrap_or(true)), (c.is_ok(), c.unwrap_or(true))]
+	} } }
+	guarded(|| match kind {
+		0 => three!(ClassName, ClassNameSlice), 1 => three!(ArrClassName, ArrClassNameSlice), 2 => three!(ObjClassName, ObjClassNameSlice),
+		3 => three!(FieldName, FieldNameSlice), 4 => three!(MethodName, MethodNameSlice), 5 => three!(ParameterName, ParameterNameSlice),
+		_ => three!(LocalVariableName, LocalVariableNameSlice),
 	})
 }
 fn impl_split(s: &JavaStr) -> Result<Option<(Vec<u32>, Vec<u32>)>, String> {
@@ -206,6 +224,15 @@ fn through(st: &mut St, s: &[u32], stream: &str) -> u32 {
 				if b { mask |= 1 << k; }
 				if b != o_name(k, s) { vio(r, format!("{}::is_valid = {b}, documentation/JVMS says {}", NAME_KINDS[k], !b), s); }
 				if st.emit_cases { r.case(stream, format!("CName {k} {} {}", gstr(s), gbool(b))); }
+				// the checked constructors agree with the predicate and keep the string
+				match impl_try_from(k, &js) {
+					Err(p) => vio(r, format!("{}: a TryFrom impl panicked: {p}", NAME_KINDS[k]), s),
+					Ok(t) => for (i, (ok, same)) in t.iter().enumerate() {
+						let which = ["<&Slice>::try_from(&JavaStr)", "Owned::try_from(JavaString)", "Owned::try_from(&JavaStr)"][i];
+						if *ok != b { vio(r, format!("{} {which} is {} but is_valid = {b}", NAME_KINDS[k], if *ok { "Ok" } else { "Err" }), s); }
+						if !*same { vio(r, format!("{} {which} changed the string", NAME_KINDS[k]), s); }
+					},
+				}
 			}
 		}
 	}
@@ -240,7 +267,8 @@ fn through(st: &mut St, s: &[u32], stream: &str) -> u32 {
 // ---------- generators ----------
 fn gen_class_name(rng: &mut Rng) -> Vec<u32> {
 	let parts = rng.range(1, 4);
-	let pool: [&str; 12] = ["a", "L", "java", "lang", "Object", "A$B", "$", "ü", "\u{10400}x", "I", "<x>", "a b"];
+	let pool: [&str; 26] = ["a", "L", "java", "lang", "Object", "A$B", "$", "ü", "\u{10400}x", "I", "<x>", "a b",
+		" ", "\t", "\u{2003}", "  ", " x", "x ", "Größe", "日本", "Outer$Größe", "Outer$日本", "$\u{10400}", "A$ ", "ü$\u{2003}", "O$I$\u{fc}\u{65e5}\u{10400}"];
 	let mut v = vec![];
 	for i in 0..parts { if i > 0 { v.push('/' as u32); } v.extend(cps_str(*rng.pick(&pool[..]))); }
 	v
@@ -260,7 +288,7 @@ fn gen_method(rng: &mut Rng) -> Vec<u32> {
 	v
 }
 fn mutate(rng: &mut Rng, s: &mut Vec<u32>) {
-	let alpha = cps_str(ALPHABET);
+	let mut alpha = cps_str(ALPHABET); alpha.extend(cps_str(ALPHABET2));
 	match rng.below(4) {
 		0 if !s.is_empty() => { let i = rng.below(s.len()); s.remove(i); }
 		1 => { let i = rng.below(s.len() + 1); s.insert(i, *rng.pick(&alpha)); }
@@ -293,7 +321,8 @@ pub fn run(ctx: &Ctx) -> anyhow::Result<Report> {
 	let alpha = cps_str(ALPHABET);
 	let oracle_len = if ctx.thorough { 7 } else { 5 };  // implementation + oracle sweep
 	let model_len = if ctx.thorough { 5 } else { 4 };   // swept inside Coq as well
-	r.rule = format!("exhaustive: every string over the 14-letter alphabet {ALPHABET:?} up to length {oracle_len} through the 3 descriptor parsers, 7 name predicates and the inner-class split on the implementation against an independent JVMS recogniser (lengths up to {model_len} also enumerated inside Coq by the model and compared as accepted-sets); plus grammar-generated and mutated long descriptors (dimensions 250..257, unicode, nested names). A case is non-trivial when at least one parser/predicate accepts it; distinct by string.");
+	let oracle_len2 = if ctx.thorough { 5 } else { 4 };
+	r.rule = format!("exhaustive: every string over the 14-letter alphabet {ALPHABET:?} up to length {oracle_len} through the 3 descriptor parsers, 7 name predicates and the inner-class split on the implementation against an independent JVMS recogniser (lengths up to {model_len} also enumerated inside Coq by the model and compared as accepted-sets); a second exhaustive sweep over the 12-letter alphabet {ALPHABET2:?} (characters of 2, 3 and 4 UTF-8 bytes, space, TAB, EM SPACE, $ / L ; [ I) up to length {oracle_len2} (quick 4, thorough 5; all of it also enumerated inside Coq); plus grammar-generated and mutated long descriptors and class names (dimensions 250..257 in field, parameter and return position, multi-byte and white-space-only name segments, inner names with multi-byte characters). Every name string also goes through the three TryFrom impls of its newtype (must agree with is_valid and keep the string). A case is non-trivial when at least one parser/predicate accepts it; distinct by string.");
 
 	// 1. sweeps
 	let mut accepted: Vec<Vec<Vec<u32>>> = vec![vec![]; 11];
@@ -314,6 +343,28 @@ pub fn run(ctx: &Ctx) -> anyhow::Result<Report> {
 	}
 	for k in 0..11 {
 		r.big_case("sweep", format!("CSweep {k} {} {model_len} {}", gstr(&alpha), glist(accepted[k].iter().map(|s| gstr(s)))));
+	}
+	// 1b. the second alphabet: multi-byte characters, white space, $ / L ; [ I
+	let alpha2 = cps_str(ALPHABET2);
+	let model_len2 = oracle_len2;
+	let mut accepted2: Vec<Vec<Vec<u32>>> = vec![vec![]; 11];
+	for len in 0..=oracle_len2 {
+		let in_model = len <= model_len2;
+		let mut count = 0u64;
+		for_all_strings(&alpha2, len, &mut |s| {
+			count += 1;
+			let mut st = St { r: &mut r, emit_cases: false };
+			let mask = through(&mut st, s, "sweep2");
+			r.eval_distinct(mask != 0);
+			if mask != 0 { r.count(&format!("sweep2_accepted_len{len}")); }
+			if in_model { for k in 0..11 { if mask & (1 << k) != 0 { accepted2[k].push(s.to_vec()); } } }
+			// results (not only acceptance) of every short string that splits or parses
+			if mask & 0b111_1000_0000 != 0 && len <= 3 { let mut st = St { r: &mut r, emit_cases: true }; through(&mut st, s, "sweep2-accepted"); }
+		});
+		r.count_n("sweep2_strings", count);
+	}
+	for k in 0..11 {
+		r.big_case("sweep2", format!("CSweep {k} {} {model_len2} {}", gstr(&alpha2), glist(accepted2[k].iter().map(|s| gstr(s)))));
 	}
 	r.exhaustive = true;
 
@@ -342,6 +393,13 @@ pub fn run(ctx: &Ctx) -> anyhow::Result<Report> {
 			let mut st = St { r: &mut r, emit_cases: true };
 			let m = through(&mut st, &ms, "boundary");
 			r.eval(&gstr(&ms), m != 0);
+			// the same in return position, alone and behind parameters
+			for head in ["()", "(I[J)"] {
+				let mut rs = cps_str(head); rs.extend(&s);
+				let mut st = St { r: &mut r, emit_cases: true };
+				let m = through(&mut st, &rs, "boundary-return");
+				r.eval(&gstr(&rs), m != 0);
+			}
 		}
 	}
 	// 4. printing of generated type values (parse(write(t)) == t on the implementation)
